@@ -312,7 +312,7 @@ impl Dict {
     }
     fn res(&mut self, r: &Res) -> String {
         match r {
-            Res::Rows(rows) => format!("(RRows [{}])", rows.iter().map(|x| self.id(x).to_string()).collect::<Vec<_>>().join(";")),
+            Res::Rows(rows) => format!("(RRows [{}]%nat)", rows.iter().map(|x| self.id(x).to_string()).collect::<Vec<_>>().join(";")),
             Res::Err(_) => "RErr".into(),
             Res::Panic(_) => "RPanic".into(),
         }
@@ -375,7 +375,7 @@ fn emit_meta(w: &mut CaseWriter, sut: &mut Sut, m: &MetaCase, stream: &str) {
         if let Some((q2, perm)) = rw.apply(&m.q, &m.db) {
             let r = sut.run(&m.db, &q2.to_sql(&m.db));
             if !same_bag(&base, &r, &perm) { all_agree = false; }
-            forms.push(format!("(Form {} {} [{}] {})", rw.to_coq(), q2.to_coq(), perm.iter().map(|x| x.to_string()).collect::<Vec<_>>().join(";"), dict.res(&r)));
+            forms.push(format!("(Form {} {} [{}]%nat {})", rw.to_coq(), q2.to_coq(), perm.iter().map(|x| x.to_string()).collect::<Vec<_>>().join(";"), dict.res(&r)));
             w.count(&format!("rewrite:{}", rw.kind()), 1);
         } else { w.count("rewrite:not_applicable", 1); }
     }
